@@ -188,7 +188,7 @@ def check(r, ctx):
 
 
 def s_base(tier, **kw):
-    use = st.one_of(st.just({}), st.just({}), st.just({"reuse": True}), st.just({"reuse": "edited"}), st.just({"open_rings": True}),
+    use = st.one_of(st.just({}), st.just({}), st.just({"reuse": True}), st.just({"reuse": "edited"}), st.just({"open_rings": True}), st.just({"pre_use": True}),
                     st.tuples(st.sampled_from(["xml", "pb"]), st.integers(1, 12)).map(lambda t: {"decoy": list(t)}))
     return st.tuples(fp.file_scenario("xml", min_pps=1, **kw), st.booleans(),
                      st.lists(st.floats(0, 1), min_size=48, max_size=48), use).map(
